@@ -132,10 +132,106 @@ def run(ctx: Ctx):
         ctx.violation("selftest:iri", rej[0]["clause"], {"job": ["iri", {"x": x, "hu": u, "ha": a}]}, kind="c15")
     elif not ctx.notes["corrupted_record_rejected"]:
         raise tlc.MachineryError("the judge accepted a corrupted uri_to_iri record")
+    _growth(ctx)
+
+
+def _split_host(h: str):
+    name, sep, port = h.rpartition(":")
+    return (name, port) if sep and port.isdigit() else (h, "")
+
+
+def _key2(clause, job):
+    return f"{clause}:{job[0]}:{job[1].get('src', 'seeded')}"
+
+
+def _growth(ctx: Ctx):
+    """from_environ round trip (EnvRT...) and Map.bind_to_environ (Bind...): spec/iri/EnvRoundTrip.tla"""
+    q = ctx.quick
+    ctx.rule += ("; (f) EnvironBuilder(...).get_environ() -> EnvironBuilder.from_environ -> get_environ() for paths / script roots "
+                 "whose decoded form contains URL syntax ('?', '#', '%XX', tab/LF), query mappings, IDN hosts with ports, methods, "
+                 "headers, body kinds and flags (TLC table + seeded); (g) Map.bind_to_environ on builder environs with a server_name "
+                 "hint (equal, parent domain, other case, default / other port, IDN, unrelated), host_matching maps and WebSocket "
+                 "upgrades (TLC table + seeded)")
+    ctx.assumptions += [
+        "from_environ round trip: claimed for environs whose PATH_INFO / SCRIPT_NAME are valid UTF-8, PATH_INFO not starting with "
+        "'//', SCRIPT_NAME without trailing '/'; only PATH_INFO, SCRIPT_NAME, the decoded query pairs, HTTP_HOST / SERVER_NAME / "
+        "SERVER_PORT and the scheme are verdicts, method / headers / content type+length / body / flags and REQUEST_URI are drift",
+        "bind_to_environ: path_info, script_name, query_args, url_scheme and (without hint) server_name are verdicts; the subdomain "
+        "decision table and the mismatch warning are drift only",
+    ]
+    for cfg in (("MCQ_envrt", "MCQ_bind") if q else ("MCT_envrt", "MCT_bind")):
+        ctx.model_check(AREA, "MCEnvRT", cfg, timeout=3000)
+    r = tlc.run_tlc(AREA, "MCEnvRT", "MCQ_envrt_orig", workers=ctx.workers, tmp=ctx.tmp, allow_violation=True, timeout=1200)
+    ctx.notes["orig_from_environ_model_violates"] = r.invariant_violated
+    if not r.invariant_violated:
+        raise tlc.MachineryError("MCEnvRT/MCQ_envrt_orig: the pre-fix from_environ model no longer violates the round trip (vacuity)")
+    jobs = []
+    base = {"pairs": [], "scheme": "http", "hostU": "h.example", "hostA": "h.example", "use_ascii_host": True, "port": ""}
+    cfg = "MCX_envrt" if q else "MCX_envrt3"
+    tab = [v for v in ctx.export(AREA, "MCEnvRT", cfg, count_states=False, timeout=3000) if isinstance(v, dict) and "pi" in v]
+    ctx.notes["exported_" + cfg] = len(tab)
+    ctx.notes["exported_envrt_in_domain"] = sum(1 for v in tab if v["pdom"]) + sum(1 for v in tab if v["rdom"])
+    for v in tab:
+        jobs.append(["envrt", dict(base, path=_txt(v["p"]), root="", src="model-path")])
+        jobs.append(["envrt", dict(base, path="/x", root=_txt(v["r"]), src="model-root")])
+    tab = [v for v in ctx.export(AREA, "MCEnvRT", "MCX_bind", count_states=False, timeout=3000) if isinstance(v, dict) and "sub" in v]
+    ctx.notes["exported_MCX_bind"] = len(tab)
+    k = 0
+    for v in tab:
+        host = _txt(v["host"])
+        arg = None if v["arg"] == [-2] else _txt(v["arg"])
+        if any(x.startswith(".") or ".." in x for x in (host, arg or "a")):
+            continue   # Python's idna codec refuses empty inner labels (BadHost): TLC-only rows
+        k += 1
+        if q and k % 6:
+            continue
+        name, port = _split_host(host)
+        jobs.append(["bind", dict(base, scheme=_txt(v["scheme"]), hostU=name, hostA=name, port=port, path="/p", root="", hm=False,
+                                  arg=arg, ws=False, src="model")])
+    rng = random.Random(ctx.seed * 7919 + 16)
+    for _ in range(500 if q else 15000):
+        jobs.append(["envrt", dict(ir.gen_envrt(rng), src="seeded")])
+    for _ in range(500 if q else 15000):
+        jobs.append(["bind", dict(ir.gen_bind(rng), src="seeded")])
+    lines = pmap(ir.run_job2, jobs, workers=ctx.workers, chunksize=64)
+    shown = set()
+    for t, (job, ln) in enumerate(zip(jobs, lines)):
+        ln["t"], ln["i"] = t, 0
+        a = job[1]
+        nt = ("%" in a["path"] + a["root"] or any(ord(c) > 127 for c in a["path"] + a["root"] + a["hostU"]) or bool(a["pairs"])
+              or a.get("arg") is not None)
+        ctx.count(1, (job[0], repr(a)) if nt else None)
+        tag = (job[0], a["src"])
+        if nt and tag not in shown:
+            shown.add(tag)
+            ctx.sample({"job": job[0], "in": dict(a), "out": {k2: _txt(v) for k2, v in ln.items()
+                       if k2 in ("pi1", "pi2", "sn1", "sn2", "qs2", "host2", "pinfo", "script", "sname") or (k2 == "sub" and v != [-2])}}, limit=12)
+    for r in ctx.judge(AREA, "EnvRTTrace", lines, batch=1500):
+        ctx.violation(_key2(r["clause"], jobs[r["t"]]), r["clause"], {"job": jobs[r["t"]]}, kind="c15")
+    # the judge rejects a corrupted record
+    good = ir.rec_envrt(dict(base, path="/a%3Fb/é", root="/app", pairs=[["k", "v w"]]))
+    bad = dict(good, pi2=good["pi2"][:-1])
+    good["t"], good["i"], bad["t"], bad["i"] = 0, 0, 1, 0
+    rej = ctx.judge(AREA, "EnvRTTrace", [good, bad])
+    ctx.notes["corrupted_envrt_record_rejected"] = sorted({r["clause"] for r in rej if r["t"] == 1})
+    for r in rej:
+        if r["t"] == 0:
+            ctx.violation(_key2(r["clause"], ["envrt", {"src": "selftest"}]), r["clause"],
+                          {"job": ["envrt", dict(base, path="/a%3Fb/é", root="/app", pairs=[["k", "v w"]])]}, kind="c15")
+    if not ctx.notes["corrupted_envrt_record_rejected"]:
+        raise tlc.MachineryError("the judge accepted a corrupted from_environ record")
 
 
 def replay(ctx: Ctx, data):
     job = data["case"]["job"]
+    if job[0] in ("envrt", "bind"):
+        ln = ir.run_job2(job)
+        ln["t"], ln["i"] = 0, 0
+        ctx.count(1, ("replay", 0))
+        ctx.sample({"job": job})
+        for r in ctx.judge(AREA, "EnvRTTrace", [ln]):
+            ctx.violation(_key2(r["clause"], job), r["clause"], data["case"], kind="c15")
+        return
     ln = ir.run_job(job)
     ln["t"], ln["i"] = 0, 0
     ctx.count(1, ("replay", 0))
